@@ -102,7 +102,7 @@ def run(ck):
     stats = dict(archives=0, members=0, structure_files=0, trans_files=0, perl_runs=0, make_runs=0, rules=0, tags=0)
     skipped = {"nonpercolating": 0, "construct-failed": 0}
     jobs = []
-    ncalc = ck.n(3, 10)
+    ncalc = ck.n(2, 10)
     scratch = tempfile.mkdtemp(prefix="c30_")
 
     def do_case(kind, label, crys, chem, m, fixed=False):
